@@ -159,6 +159,18 @@ CHECKS = {
          "13-string alphabet including malformed strings against fresh parsers.",
     note="Assumed: A9 pyparsing's parseString is deterministic in (grammar, text) and only calls the registered parse actions; BracketValidator.validate is a trusted contract (namedtuple records outside the subset).",
     design="6/C10"),
+ 'C11': dict(
+    technique="contract-based deductive verification (pyvc): state-machine contract with exceptional exits for ItemGrader.__call__, frame obligations on constructors and result builders, parser state (C10); package-wide write-site scan; bounded call histories against fresh graders as stand-in",
+    text="Proved: ItemGrader.__call__ (all-or-nothing answer inference) -- on normal AND exceptional exit log_created is cleared; when expect is given and the grader has no configured answers (or is already "
+         "inferring) the stored answers become the validated inference and inferring_answers is set, otherwise answers and flag are untouched; an exception leaves either the old answers or those of a "
+         "successful inference, never a half-validated state (this failed before fix: commits fd075ca and 99ea7de). Frames: IntervalGrader.__init__ writes only the new grader, never the author's "
+         "dictionary (failed before fix: 398c371); ItemGrader.check and consolidate_results write nothing reachable from the configuration; construct_constants / construct_suffixes copy; "
+         "MathParser state per C10. Source scan (nullary fact, back end 'ast-scan'): every process-wide write site of the package lies in the documented switches, and enable_negative_powers restores its "
+         "flag in a finally block with MatrixGrader.check_response as only user. Bounded (not proved): call sequences of length <= 3/4 per item-grader class x answers configured or not x debug against fresh "
+         "graders; deep snapshots of configuration objects, evaluator scopes and process-wide settings; shared subgraders.",
+    note="Assumed (call-site contracts, A10/A15): infer_from_expect / schema_answers / post_schema_ans_val are deterministic, may raise, and do not write grader state; AbstractGrader.__call__ never touches "
+         "config['answers'] and clears log_created once the input has passed ensure_text_inputs (its own contract is drafted, not discharged). coerce2unicode's recursive copy is bounded-only.",
+    design="6/C11"),
 }
 
 NOT_YET = {}
